@@ -1,7 +1,7 @@
 #!/bin/sh
 # Runs every seeded change against the quick check of the property it targets (applies the patch to /repo, runs, reverts)
 # and records the verdict in seeded/<id>/detected.txt.  /repo is left clean.
-cd /verif
+cd "$(dirname "$0")/.."
 for d in seeded/C*; do
   id=$(basename $d); prop=${id%_*}
   [ -n "$1" ] && [ "$1" != "$id" ] && continue
